@@ -227,7 +227,7 @@ def _dispatch_order(ctx):
     append at the back (shared with C09.a)"""
     import core, c09
     import c08
-    np_ = core.adopt(ctx, c08, lambda o: o["rule"] == "C08.e" and "poll:" in o["key"], "C12.e")
+    np_ = core.adopt(ctx, c08, lambda o: o["rule"] == "C08.e" and ("poll:" in o["key"] or "runner:" in o["key"]), "C12.e")
     ctx.floor("C12.e", np_, 1, "shared poll obligation (C08.e): polled reactions are flushed where they are detected, not behind later deliveries")
     n = core.adopt(ctx, c09, lambda o: o["rule"] == "C09.a" and ("iterates-in-registration-order" in o["key"] or "queues-at-back" in o["key"]), "C12.d")
     ctx.floor("C12.d", n, 15, "shared dispatch-order obligations (C09.a)")
